@@ -39,6 +39,11 @@ AdditionalOK(auth, answers, a) ==
   /\ a \in auth /\ a.type \in {1, 28}
   /\ \E s \in answers : s.type = 33 /\ s.rd # <<>> /\ SrvTarget(s) = a.name
 
+\* ------------------------------------------------------------------ Impl: refresh schedule
+\* ExpirationInfo::new: when a cached record should be queried for again (seconds after it was received):
+\* at once for TTL 0, at half of a short TTL, at 80% of a TTL of a minute or more
+RefreshDelay(ttl) == IF ttl = 0 THEN 0 ELSE IF ttl < 60 THEN ttl \div 2 ELSE (ttl \div 10) * 8
+
 \* ------------------------------------------------------------------ Impl: trie keys
 Nibbles(bytes) == [i \in 1 .. 2 * Len(bytes) |->
                      IF i % 2 = 1 THEN bytes[(i + 1) \div 2] \div 16 ELSE bytes[i \div 2] % 16]
